@@ -368,5 +368,7 @@ def run(ctx: Ctx):
     ctx.assumptions += ["Continuum.add / remove behave as in C13", "reference aliasing is C14's concern"]
     rule_from_reference(ctx)
     check_annotator_key(ctx, "R-C19-1")       # "exactly the requested annotators": the tool creates them through continuum.add(name, ...)
+    from .c13 import add_guard_obligation
+    add_guard_obligation(ctx, "R-C19-2")      # "only positive-duration units": every perturbation inserts through add(), whose guard refuses empty segments
     rule_perturbations(ctx)
     rule_driver(ctx)
